@@ -19,6 +19,7 @@ type Schema struct {
 	pattern       string
 	compileOnce   sync.ErrOnce
 	generatorOnce sync.ErrOnceWithValue[*reggen.Generator]
+	exampleOnce   sync.ErrOnceWithValue[[]byte]
 	generatorSeed int64
 }
 
@@ -75,7 +76,18 @@ func (s *Schema) Example() ([]byte, error) {
 	return s.generateExample()
 }
 
+// generateExample generates the example only once: the generator is a stateful
+// PRNG, so every further call would give another example (and concurrent calls
+// would race on it). Each caller gets its own copy.
 func (s *Schema) generateExample() ([]byte, error) {
+	ex, err := s.exampleOnce.Do(s.doGenerateExample)
+	if err != nil {
+		return nil, err
+	}
+	return append([]byte(nil), ex...), nil
+}
+
+func (s *Schema) doGenerateExample() ([]byte, error) {
 	g, err := s.generatorOnce.Do(func() (*reggen.Generator, error) {
 		g, err := reggen.NewGenerator(s.pattern)
 		if err != nil {
